@@ -1045,12 +1045,9 @@ pub extern "C" fn send_time_limit(fd: c_int) -> u64 {
                 &raw mut len,
             ) == -1
             {
-                let error = std::io::Error::last_os_error();
-                if Some(libc::ENOTSOCK) == error.raw_os_error() {
-                    // not a socket
-                    return u64::MAX;
-                }
-                panic!("getsockopt failed: {error}");
+                // not a socket: no limit. Not an open descriptor at all: no limit either, the
+                // call this is asked for reports EBADF itself (never panic in an extern "C" hook)
+                return u64::MAX;
             }
             let time_limit = get_time_limit(&tv);
             assert!(SEND_TIME_LIMIT.insert(fd, time_limit).is_none());
@@ -1074,12 +1071,9 @@ pub extern "C" fn recv_time_limit(fd: c_int) -> u64 {
                 &raw mut len,
             ) == -1
             {
-                let error = std::io::Error::last_os_error();
-                if Some(libc::ENOTSOCK) == error.raw_os_error() {
-                    // not a socket
-                    return u64::MAX;
-                }
-                panic!("getsockopt failed: {error}");
+                // not a socket: no limit. Not an open descriptor at all: no limit either, the
+                // call this is asked for reports EBADF itself (never panic in an extern "C" hook)
+                return u64::MAX;
             }
             let time_limit = get_time_limit(&tv);
             assert!(RECV_TIME_LIMIT.insert(fd, time_limit).is_none());
